@@ -288,14 +288,80 @@ Definition md035 (style : option str) (lvs : list leaf) : verdict :=
   | None, (_, s) :: r => only (flat_map (fun p => if str_eqb (snd p) s then [] else [fst p]) r)
   end.
 
+(* ---------------------------------------------------------------- lists *)
+Record lst := mklst { l_ord : bool; l_delim : N; l_sl : nat; l_el : nat; l_path : list nk }.
+Fixpoint lists_of (path : list nk) (n : node) {struct n} : list lst :=
+  match n with
+  | NLeaf _ _ _ _ => []
+  | NCont k ch sl el _ _ =>
+      (match k with KList o d _ => [mklst o d sl el path] | _ => [] end) ++
+      (fix go (l : list node) : list lst := match l with [] => [] | x :: r => lists_of (path ++ [k]) x ++ go r end) ch
+  end.
+Definition all_lists (ls : list str) : list lst := flat_map (lists_of []) (parse_doc ls).
+Definition list_depth (l : lst) : nat := length (filter is_list_kind (l_path l)).
+
+(* MD004: the marker of every unordered list (a change of marker starts a new list in CommonMark) *)
+Inductive c004 := K4Consistent | K4Fixed (c : N) | K4Sublist.
+Fixpoint md004_go (seen : list (nat * N)) (ls : list lst) : list nat :=
+  match ls with
+  | [] => []
+  | l :: r =>
+    match find (fun p => Nat.eqb (fst p) (list_depth l)) seen with
+    | Some (_, c) => (if N.eqb c (l_delim l) then [] else [l_sl l]) ++ md004_go seen r
+    | None => md004_go ((list_depth l, l_delim l) :: seen) r
+    end
+  end.
+Definition md004 (c : c004) (lsts : list lst) : verdict :=
+  let bl := filter (fun l => negb (l_ord l)) lsts in
+  match c with
+  | K4Fixed ch => only (flat_map (fun l => if N.eqb (l_delim l) ch then [] else [l_sl l]) bl)
+  | K4Consistent => match bl with [] => only [] | l0 :: r => only (flat_map (fun l => if N.eqb (l_delim l) (l_delim l0) then [] else [l_sl l]) r) end
+  | K4Sublist => only (md004_go [] bl)
+  end.
+
+(* MD032: lists surrounded by blank lines; a list directly inside a list item is exempt.  Reported at the list (the
+   harness counts a report on any line of the list or on the line after it for the list). *)
+Definition in_item (l : lst) : bool := match rev (l_path l) with KItem _ :: _ => true | _ => false end.
+Definition md032 (ls : list str) (lvs : list leaf) (lsts : list lst) : verdict :=
+  let n := length ls in
+  let side (l : lst) (ln : nat) : bool * bool :=
+    if (ln <? 1) || (n <? ln) then (false, false)
+    else match leaf_at lvs ln with
+         | Some p => if same_path (lpath p) (l_path l) then (true, false) else (false, true)
+         | None => if is_blank (line_at ls ln) then (false, false) else (false, true)
+         end in
+  let per l :=
+    if in_item l then ([], [])
+    else let '(m1, o1) := side l (l_sl l - 1) in
+         let '(m2, o2) := side l (S (l_el l)) in
+         (* a list that ends with an empty item: its last line shows a marker only, left open like other marker-only lines *)
+         let '(m2, o2) := if blank_at lvs (l_el l) then (false, m2 || o2) else (m2, o2) in
+         (if m1 || m2 then [l_sl l] else [], if o1 || o2 then [l_sl l] else []) in
+  let rs := map per lsts in
+  mkv (flat_map fst rs) (flat_map snd rs).
+
 (* ---------------------------------------------------------------- all rules on one document.
    `pieces` = the text split at newline characters (so a text ending in a newline has a last empty piece, which the rules
    see as a last, blank, line); the block structure is CM's parse of the lines of the text. *)
 Definition lines_of_pieces (ps : list str) : list str := match rev ps with [] :: r => rev r | _ => ps end.
+
+(* ---------------------------------------------------------------- positions of leaf blocks (C05): kind, line, column *)
+Definition leaf_pos (l : leaf) : option (nat * nat * nat) :=
+  match lb l with
+  | BPara _ ((off, ind) :: _) => Some (0, lsl l, S (off + ind))
+  | BHead _ _ (HAtx off ind _) => Some (1, lsl l, S (off + ind))
+  | BHead _ _ (HSetext ((off, ind) :: _) _ _ _) => Some (2, lsl l, S (off + ind))
+  | BBreak off ind _ => Some (3, lsl l, S (off + ind))
+  | BCode _ _ (CFence _ _ off ind _) => Some (4, lsl l, S (off + ind))
+  | _ => None
+  end.
+Definition leaf_positions (pieces : list str) : list (nat * nat * nat) :=
+  flat_map (fun l => match leaf_pos l with Some p => [p] | None => [] end) (leaves (lines_of_pieces pieces)).
 Definition style3 (k : nat) : c003 :=
   match k with 1 => K3Fixed SAtx | 2 => K3Fixed SAtxClosed | 3 => K3Fixed SSetext | 4 => K3SetextWith SAtx | 5 => K3SetextWith SAtxClosed | _ => K3Consistent end.
 Definition run_rules (p : list nat) (punct : str) (hr : str) (pieces : list str) : list (nat * verdict) :=
   let lvs := leaves (lines_of_pieces pieces) in
+  let lsts := all_lists (lines_of_pieces pieces) in
   let g i := nth i p 0 in
   let b i := Nat.eqb (g i) 1 in
   let tail_in_code := match leaf_at lvs (length (lines_of_pieces pieces)) with
@@ -304,6 +370,7 @@ Definition run_rules (p : list nat) (punct : str) (hr : str) (pieces : list str)
   [ (0, only (flat_map (fun h => match h_src h with HSetext _ _ _ _ => [h_sl h; h_el h] | _ => [] end) (headings lvs)));
     (1, md001 lvs);
     (3, md003 (style3 (g 13)) lvs);
+    (4, md004 (match g 16 with 1 => K4Fixed star | 2 => K4Fixed 43%N | 3 => K4Fixed dash | 4 => K4Sublist | _ => K4Consistent end) lsts);
     (9, md009 (mk009 (g 0) (b 1)) pieces lvs);
     (12, md012 (g 8) pieces lvs tail_in_code (length (lines_of_pieces pieces)));
     (13, md013 (mk013 (g 2) (g 3) (g 4) (b 5) (b 6) (b 7)) pieces lvs);
@@ -315,6 +382,8 @@ Definition run_rules (p : list nat) (punct : str) (hr : str) (pieces : list str)
     (25, md025 (g 11) lvs);
     (26, md026 punct lvs);
     (31, md031 pieces lvs);
+    (32, md032 pieces lvs lsts);
+    (33, only (flat_map (fun l => if in_item l then [] else [l_sl l; l_el l]) lsts));
     (35, md035 (if is_nil hr then None else Some hr) lvs);
     (40, md040 lvs);
     (41, md041 (g 12) (parse_doc (lines_of_pieces pieces)));
